@@ -268,3 +268,26 @@ func (p *Prog) FieldsStoredIn(typeName string, fns ...*ssa.Function) map[string]
 	}
 	return out
 }
+
+// ClosureWithCall finds the (unique, innermost-first) function nested in parent that contains a call
+// whose descriptor matches pat. Closure numbering ($1, $2 …) is not a stable anchor; content is.
+func (c *Ctx) ClosureWithCall(parent *ssa.Function, pat string) *ssa.Function {
+	if parent == nil {
+		return nil
+	}
+	var found []*ssa.Function
+	for _, fn := range WithClosures(parent) {
+		if fn == parent {
+			continue
+		}
+		if len(c.CallsD(fn, pat)) > 0 {
+			found = append(found, fn)
+		}
+	}
+	if len(found) == 0 {
+		c.Unresolved(parent, "closure calling "+pat, "no closure of "+c.FuncKey(parent)+" calls "+pat)
+		return nil
+	}
+	c.touch(found[0])
+	return found[0]
+}
